@@ -23,6 +23,7 @@ def check(pc, goal, timeout_ms=None, want_model=True, observe=()):
   g = z3.simplify(goal)
   if z3.is_true(g):
     return 'unsat', None, 'trivial', 0.0
+  pc, g = skolem_instances(pc, g)
   s = z3.Solver()
   s.set('timeout', min(EMATCH_TIMEOUT_MS, timeout_ms or Z3_TIMEOUT_MS))
   s.set('random_seed', 7)
@@ -43,13 +44,98 @@ def check(pc, goal, timeout_ms=None, want_model=True, observe=()):
         except Exception:
           pass
     return 'sat', model, 'z3', dt
-  # unknown: z3 with MBQI (CLI), then cvc5, on the exported problem
+  # unknown: retry on slices of the hypotheses (proving the goal from fewer hypotheses is sound; a slice never
+  # yields 'sat'), which keeps E-matching away from unrelated quantified heap axioms
+  if len(pc) > 40:
+    for sl in slices(pc, g):
+      s2 = z3.Solver()
+      s2.set('timeout', 3000)
+      s2.set('random_seed', 7)
+      for c in sl:
+        s2.add(c)
+      s2.add(z3.Not(g))
+      if s2.check() == z3.unsat:
+        return 'unsat', None, 'z3-sliced', time.time() - t0
+  # then z3 with MBQI (CLI), then cvc5, on the exported problem
   st = cli_check(s, [Z3CLI if os.path.exists(Z3CLI) else 'z3', '-T:%d' % max(5, (timeout_ms or Z3_TIMEOUT_MS) // 1000), 'smt.mbqi=true'])
   if st in ('unsat', 'sat'):
     # MBQI only answers sat when its model satisfies the quantifiers; no model is extracted from the CLI run
     return st, ({} if st == 'sat' else None), 'z3-cli-mbqi', time.time() - t0
   st = cvc5_check(s)
   return st, None, 'cvc5' if st != 'unknown' else 'z3+cvc5', time.time() - t0
+
+
+_SK = [0]
+
+
+def skolem_instances(pc, g):
+  """A universally quantified integer goal  forall j. B(j)  is proved for a fresh constant sk; every hypothesis of the
+  form  forall j. H(j)  over one integer (the shape forall_int produces) is additionally instantiated at sk.  Both steps
+  are sound (instances of hypotheses; generalisation over a fresh constant) and spare the solver the E-matching."""
+  if not (z3.is_quantifier(g) and g.is_forall() and g.num_vars() == 1 and g.var_sort(0) == z3.IntSort()):
+    return pc, g
+  _SK[0] += 1
+  sk = z3.Int('sk!%d' % _SK[0])
+  body = z3.substitute_vars(g.body(), sk)
+  extra = []
+  for c in pc:
+    h = c
+    if z3.is_and(h) and h.num_args() == 1:
+      h = h.arg(0)
+    if z3.is_quantifier(h) and h.is_forall() and h.num_vars() == 1 and h.var_sort(0) == z3.IntSort() and \
+        h.var_name(0).startswith('q_'):
+      extra.append(z3.substitute_vars(h.body(), sk))
+  return list(pc) + extra, body
+
+
+def symbols(t, cache):
+  """Uninterpreted constant / function names occurring in a term."""
+  k = t.get_id()
+  if k in cache:
+    return cache[k]
+  out = set()
+  seen = set()
+  todo = [t]
+  while todo:
+    x = todo.pop()
+    i = x.get_id()
+    if i in seen:
+      continue
+    seen.add(i)
+    if z3.is_quantifier(x):
+      todo.append(x.body())
+    elif z3.is_app(x):
+      d = x.decl()
+      if d.kind() == z3.Z3_OP_UNINTERPRETED:
+        out.add(d.name())
+      todo.extend(x.children())
+  cache[k] = out
+  return out
+
+
+def slices(pc, goal):
+  """Growing subsets of pc linked to the goal through shared symbols (symbols occurring in more than a quarter of the
+  hypotheses do not link)."""
+  cache = {}
+  syms = [symbols(c, cache) for c in pc]
+  freq = {}
+  for ss in syms:
+    for x in ss:
+      freq[x] = freq.get(x, 0) + 1
+  common = set(x for x, n in freq.items() if n > max(10, len(pc) // 4))
+  front = symbols(goal, cache) - common
+  chosen = set()
+  last = -1
+  for level in range(4):
+    for i, ss in enumerate(syms):
+      if i not in chosen and ss & front:
+        chosen.add(i)
+    for i in chosen:
+      front |= (syms[i] - common)
+    if len(chosen) == last or len(chosen) == len(pc):
+      break
+    last = len(chosen)
+    yield [pc[i] for i in sorted(chosen)]
 
 
 def cli_check(solver, cmd):
